@@ -164,11 +164,15 @@ def _gen_call(g: VGen, params: List[dict], eff: Any) -> Tuple[List[dict], List[l
     vk = [p for p in params if p["kind"] == "varKw"]
     if vk:
         # (names that cannot bind to their namesake - positional-only, *args, **kwargs itself - arrive through **kwargs)
-        for name in r.sample(["x", "y", "zz"] + [p["name"] for p in params if p["kind"] in ("posOnly", "varPos", "varKw")], r.choice([0, 0, 1, 2])):
+        for name in r.sample(["x", "y", "zz", LONG_NAME] + [p["name"] for p in params if p["kind"] in ("posOnly", "varPos", "varKw")], r.choice([0, 0, 1, 2])):
             if not any(k[0] == name for k in kwargs):
                 kwargs.append([name, value_for(g, eff(vk[0]))])
     r.shuffle(kwargs)
     return args, kwargs, legal
+
+
+# a keyword long enough that its `name=value` line in the rendered failure exceeds any fixed column budget
+LONG_NAME = "q" + "_long_keyword" * 5
 
 
 def value_for(g: VGen, v: Optional[dict]) -> dict:
